@@ -284,7 +284,8 @@ class Decision:
 def _kind_of(name):
     """Obligation name without the instantiation brackets of its unit and without call-site line numbers."""
     import re
-    return re.sub(r"@L\d+", "", re.sub(r"\[[^\]]*\]", "", name))
+    name = re.sub(r"@L\d+", "", re.sub(r"\[[^\]]*\]", "", name))
+    return re.sub(r"(cache|orbit):[HCT]{1,3}([:-])", r"\1:*\2", name)
 
 
 def _uniq(xs):
